@@ -962,23 +962,44 @@ func runC05(e *Engine, r *Report, tier string) {
 			continue
 		}
 		// bank debit uses the same parameter and Dominates the set
-		debitOK := false
-		allCalls(fn, func(c ssa.CallInstruction) {
-			if callName(c) != "SendCoinsFromAccountToModule" {
-				return
-			}
-			for _, a := range c.Common().Args {
-				res := e.Slice(a, SliceOpts{MaxDepth: 8}, func(x ssa.Value) Verdict {
-					if x == ssa.Value(incPar) {
-						return Accept
-					}
-					return Continue
-				})
-				if res.AllAccepted() && strings.Contains(a.Type().String(), "Coins") {
-					debitOK = true
+		// (directly, or through a routine of this module that is handed the amount and debits it)
+		var debits func(f *ssa.Function, amt ssa.Value, depth int) bool
+		debits = func(f *ssa.Function, amt ssa.Value, depth int) bool {
+			found := false
+			allCalls(f, func(c ssa.CallInstruction) {
+				if found {
+					return
 				}
-			}
-		})
+				callee := c.Common().StaticCallee()
+				for ai, a := range c.Common().Args {
+					ts := a.Type().String()
+					if !strings.Contains(ts, "Coin") {
+						continue
+					}
+					res := e.Slice(a, SliceOpts{MaxDepth: 8}, func(x ssa.Value) Verdict {
+						if x == amt {
+							return Accept
+						}
+						return Continue
+					})
+					if !res.AllAccepted() {
+						continue
+					}
+					if callName(c) == "SendCoinsFromAccountToModule" && strings.Contains(ts, "Coins") {
+						found = true
+						return
+					}
+					if depth > 0 && callee != nil && isFx(callee) && !c.Common().IsInvoke() && ai < len(callee.Params) && len(callee.Blocks) > 0 {
+						if debits(callee, callee.Params[ai], depth-1) {
+							found = true
+							return
+						}
+					}
+				}
+			})
+			return found
+		}
+		debitOK := debits(fn, incPar, 2)
 		r.Check(debitOK, "R5", ck+" amount", e.InstrPos(feeStore), "fee += "+incPar.Name()+" and the same "+incPar.Name()+" is debited from the payer", "the amount added to the fee is not the amount debited from the payer")
 		// same token: the record's fee contract equals the contract of the denom being paid (mismatch -> error)
 		okTok := false
